@@ -59,16 +59,16 @@ func (g *gen) lit(t Type, d int) string {
 		case 2:
 			if v, ok := g.pickVar(TStr, "capture"); ok {
 				g.feat("closure-capture")
-				return "func(x string) string { return x + " + v.name + " }"
+				return "func(x string) string { " + g.enterCall() + "return x + " + v.name + " }"
 			}
-			return "func(x string) string { return x }"
+			return "func(x string) string { " + g.enterCall() + "return x }"
 		default:
 			if v, ok := g.pickVar(TPS, "capture"); ok {
 				g.feat("closure-capture")
 				g.feat("closure-writes-captured")
-				return "func(x string) string { " + v.name + ".B = x; return " + v.name + ".A }"
+				return "func(x string) string { " + g.enterCall() + v.name + ".B = x; return " + v.name + ".A }"
 			}
-			return "func(x string) string { return \"k\" + x }"
+			return "func(x string) string { " + g.enterCall() + "return \"k\" + x }"
 		}
 	case TArr:
 		return "[2]string{" + g.expr(TStr, d+1) + ", " + g.expr(TStr, d+1) + "}"
